@@ -82,8 +82,21 @@ claim("C14",
       "Trusted: rustc MIR and callee resolution (dyn/generic calls over-approximated); axum layer ordering; tokio::spawn detaches. Not decided: the full request matrix, key-change histories, timing.",
       "call-graph effect reachability per dispatch arm (table agreement), dominance on Ok edges, def-use slicing of the scope/database operands, signature scan", "DESIGN §4 C14")
 
+claim("C15",
+      "Decides the structure behind totality and boundedness: budget pre-scan first in every entry, all_consuming wrapper, validator on the success path, every cycle of the parser call graph "
+      "(incl. hand-written Parser impls and fn items passed to combinators) passes a depth check on a threaded depth parameter or a bracket-consuming step, explicit panic constructs reachable "
+      "from the entries are exactly the reviewed table, and classification never depends on a declared language. Determinism under case/whitespace/comments and the serde round trip are not decided.",
+      "Trusted: rustc MIR; nom combinators call only the parsers they are handed; the pre-scan bounds bracket nesting; serde_json's recursion limit for injected trees. Panic table is a reviewed list ('unreviewed panic site' is a weaker verdict).",
+      "call-graph SCC analysis with witness removal (acyclic remainder), dominance on Ok edges, reachable panic-construct table, argument-provenance slicing", "DESIGN §4 C15")
+claim("C16",
+      "Decides completeness of the tree validator against the AST type definitions: every assignment-bearing field/action enumerated from the types is read in its arm and passed to a closure "
+      "reaching is_protected_field; every WHERE-bearing payload is returned by clause_where; every matcher-bearing WhereClause variant is descended into and BELIEF selectors refused; pre-parsed "
+      "trees are validated before use; guards and their tables are wired once; ASSERT desugars to exactly the three clauses and requires by/mode. Value-level spelling of names is not decided.",
+      "Trusted: rustc MIR; type definitions as seen by rustc; is_protected_field is the protected-field test. Not decided: case/quoting variants of field names, nested path semantics.",
+      "table agreement between ADT definitions and match-arm regions (type-directed), def-use flow of field reads into check closures, const-reference who-uses tables", "DESIGN §4 C16")
+
 _pending = "rules for this property are not built yet in this round (see DESIGN §10 order of work); not claimed until they are"
-for pid in ["C13", "C15", "C16", "C17", "C18", "C19"]:
+for pid in ["C13", "C17", "C18", "C19"]:
     NA[pid] = _pending
 NA["C20"] = ("every clause is an algebraic law over runtime multisets of assertions (permutation invariance, monotone score fold, thresholds); "
              "no clause is visible in the shape of the code, so static analysis cannot decide it (DESIGN §6)")
